@@ -577,8 +577,38 @@ def _is_set_creation(n):
     return isinstance(n, ast.Call) and isinstance(n.func, ast.Name) and n.func.id in ("set", "frozenset")
 
 
+def _holder_membership_only(fn, holder, parents):
+    for x in ast.walk(fn.node):
+        if isinstance(x, ast.Name) and x.id == holder and isinstance(x.ctx, ast.Load):
+            px = parents.get(id(x))
+            if isinstance(px, ast.Attribute) and px.attr in ("append", "add"):
+                continue
+            if isinstance(px, ast.Compare) and x in px.comparators and all(isinstance(op, (ast.In, ast.NotIn)) for op in px.ops):
+                continue
+            return False
+    return True
+
+
 def _id_use_is_bookkeeping(fn, n, parents):
     p = parents.get(id(n))
+    if isinstance(p, ast.NamedExpr) and p.value is n and isinstance(p.target, ast.Name):
+        # (ident := id(x)): the walrus itself sits in a membership / equality test, and every later use of the name is
+        # a membership test, an equality test or an append to a list that is only used for membership
+        gp = parents.get(id(p))
+        if not (isinstance(gp, ast.Compare) and all(isinstance(op, (ast.In, ast.NotIn, ast.Eq, ast.NotEq, ast.Is, ast.IsNot))
+                                                    for op in gp.ops)):
+            return False
+        for x in ast.walk(fn.node):
+            if isinstance(x, ast.Name) and x.id == p.target.id and isinstance(x.ctx, ast.Load):
+                px = parents.get(id(x))
+                if isinstance(px, ast.Compare) and all(isinstance(op, (ast.In, ast.NotIn, ast.Eq, ast.NotEq, ast.Is, ast.IsNot))
+                                                       for op in px.ops):
+                    continue
+                if isinstance(px, ast.Call) and isinstance(px.func, ast.Attribute) and px.func.attr in ("append", "add") \
+                        and isinstance(px.func.value, ast.Name) and _holder_membership_only(fn, px.func.value.id, parents):
+                    continue
+                return False
+        return True
     # id(x) in ids / id(x) not in ids / id(a) == id(b) / ids.append(id(x)) where ids only used for membership
     if isinstance(p, ast.Compare):
         return all(isinstance(op, (ast.In, ast.NotIn, ast.Eq, ast.NotEq, ast.Is, ast.IsNot)) for op in p.ops)
